@@ -95,6 +95,13 @@ class GenKill(BaseException):
     """Unwinds the producer thread of a generator that is abandoned by its consumer."""
 
 
+def is_model_object(v):
+    """an object of one of the engine's models (abstract file, packed value, JSON text, ...): an operation the model does not define is a gap of the
+    model, never an error of the interpreted program"""
+    t = type(v)
+    return t.__module__.startswith("pyvc.models") or t.__name__ in ("BCat",)
+
+
 class GenList(list):
     """The value of a generator expression: its elements, evaluated eagerly and in order (a list for every model that walks it); next() consumes it from the
     front like the generator it stands for."""
@@ -676,6 +683,10 @@ class Interp:
 
     def binop(self, opnode, a, b):
         name, native, meth, rmeth = BINOPS[type(opnode)]
+        if (is_model_object(self.unbase(a)) or is_model_object(self.unbase(b))) and not (name == "Add"):
+            ma, mb = self.unbase(a), self.unbase(b)
+            if not (hasattr(type(ma), meth) or hasattr(type(mb), rmeth)):
+                raise Unsupported(f"operator {name} on a model object ({type(ma).__name__}, {type(mb).__name__})")
         if name == "Add":
             ua, ub = self.unbase(a), self.unbase(b)
             if (is_abstract_bytes(ua) or is_abstract_bytes(ub)) and all(is_abstract_bytes(x) or isinstance(x, (bytes, bytearray)) for x in (ua, ub)):
@@ -734,6 +745,8 @@ class Interp:
             return ua + ub
         if isinstance(ua, str) and name == "Mod":
             raise Unsupported("%-formatting with symbolic operands")
+        if is_model_object(ua) or is_model_object(ub):
+            raise Unsupported(f"operator {name} on a model object ({type(ua).__name__}, {type(ub).__name__})")
         raise PyRaise(TypeError(f"unsupported operand type(s) for {name}: '{self.type_name(a)}' and '{self.type_name(b)}'"))
 
     def unop(self, opnode, v):
@@ -1214,6 +1227,9 @@ class Interp:
             except (Unsupported, PyRaise, PathEnd, ReturnSignal):
                 raise
             except Exception as e:
+                if isinstance(e, (TypeError, AttributeError)) and not getattr(getattr(fn, "__func__", fn), "__code__", None) and any(is_model_object(self.unbase(a)) for a in allv if not isinstance(a, (list, tuple, dict))):
+                    # a C-level function refused a model object (an abstract file / packed value handed to a builtin): a gap of the model
+                    raise Unsupported(f"native {getattr(fn, '__qualname__', fn)!r} applied to a model object: {e}")
                 raise PyRaise(e)
         # unbase builtin-subclass instances whose base is concrete
         ub = [self.unbase(a) for a in args]
